@@ -351,6 +351,10 @@ func mixCases(prop string) []Case {
 	// an account behind a capped unbounded overdraft and again as a plain source
 	add([]string{sendFixed("USD", "{ max %C from @a allowing unbounded overdraft @a @b }", "@d")}, nil)
 	add([]string{sendAll("USD", "{ max %C from @a allowing unbounded overdraft @a @b }", "{ max %C to @d remaining to @e }")}, nil)
+	// caps and limits written as a - b + c (the intermediate difference may be negative)
+	add([]string{sendFixed("USD", "@world", "{ max %C - %C + %C to @d remaining to @e }")}, nil)
+	add([]string{sendAll("USD", "{ @a allowing overdraft up to %K - %K + %K @b }", "{ max %C - %C to @d remaining kept }")}, nil)
+	add([]string{"send %N - %N + %N (\n  source = { max %C - %C + %C from @a @world }\n  destination = @d\n)"}, nil)
 	// statement kinds following each other
 	add([]string{"set_tx_meta(\"k\", 1)", sendFixed("USD", "@a", "@d"), "set_account_meta(@a, \"k\", @d)", "save [USD *] from @a", sendFixed("USD", "{ @a @world }", "@e")}, nil)
 	return cases
